@@ -56,7 +56,7 @@ Definition clause_effects (c : case) : bool :=
 Definition bad_kind (v : cval) : bool :=
   match vk v with KNull | KUnq | KOther => true | _ => false end.
 Definition bad_operand (e : expr) : bool :=
-  match e with ELeaf v | EEff _ v => bad_kind v | _ => false end.
+  match e with ELeaf v | EEff _ v => bad_kind v | EAnd _ _ | EOr _ _ => true | _ => false end.
 Fixpoint bad_not (e : expr) : bool :=
   match e with
   | ENot a => bad_operand a || bad_not a
